@@ -92,11 +92,21 @@ def check_C01(tier, seed):
     for g in rg:
         for fs in ("std", "opt"):
             cases.append(ref_case(g, ["C01"], flagset=fs))
+    # classes against the reference's membership: random merges over a-h (nested, overlapping, adjacent ranges) and
+    # random classes over boundary runes
+    ccases = []
+    for g in cores.random_class_merges(seed, 12 if tier == "quick" else 150) + cores.random_classes(seed, 12 if tier == "quick" else 150):
+        ccases.append(ref_case(g, ["C01"], flagset="std"))
+        ccases.append(ref_case(g, ["C01"], flagset="bl"))
     cases.append(ref_case(cat[0], ["TWIN"], suffix="_twin"))
-    catcheck.prepare(w, cases)
+    catcheck.prepare(w, cases + ccases)
     agg = catcheck.explore(w, rep, [c for c in cases if not c.id.endswith("_twin")], "C01", r"Harness_C01$", N, tmo, "ref", seed=seed,
                            validate_pkgs=6 if tier == "quick" else 24)
-    run_lemmas(w, rep, "C01", ["Seq", "Choice", "And", "Not", "Star", "Plus", "Opt", "Label", "Any", "Lit", "Class"], 1 if tier == "quick" else 2)
+    # one class decides one rune: two (three) bytes are enough for the class cases
+    agg = merge_agg(agg, catcheck.explore(w, rep, ccases, "C01", r"Harness_C01$", 2 if tier == "quick" else 3, tmo, "ref", seed=seed, validate_pkgs=3 if tier == "quick" else 10))
+    run_lemmas(w, rep, "C01", ["Seq", "Choice", "And", "Not", "Star", "Plus", "Opt", "Label"], 1 if tier == "quick" else 2)
+    # terminals have no children to choose: a longer input is cheap (the literal of the lemma is 3 bytes long)
+    run_lemmas(w, rep, "C01", ["Any", "Lit", "Class"], 3 if tier == "quick" else 4, key="lemma_obligations_terminals")
     twin = run_engine(w, pkgs="./" + cases[-1].harness_rel, harness="Harness_TWIN$", nmin=1, nmax=1, timeout_s=60)
     tw = sum(len(j.get("counterexamples") or []) for j in twin.get("jobs") or [])
     if tw == 0:
@@ -177,6 +187,10 @@ def check_C15(tier, seed):
         N, tmo = 3, 900
     cat = cat + cores.random_classes(seed, 40 if tier == "quick" else 400)
     cases = [rel_case(g, ["C15"], [], ["-optimize-basic-latin"]) for g in cat]
+    # the table of a class that -optimize-grammar has cloned and merged: (X, X + -optimize-basic-latin) with X = -optimize-grammar
+    og = ["-optimize-grammar"]
+    for g in cores.random_class_merges(seed, 16 if tier == "quick" else 200) + [x for x in cores.opt_catalogue() if x["name"].startswith(("og_sharedcls", "og_merge0", "og_merge1"))]:
+        cases.append(rel_case(g, ["C15"], og, og + ["-optimize-basic-latin"], suffix="_g"))
     cases.append(rel_case(cat[0], ["TWIN"], [], ["-optimize-basic-latin"], suffix="_twin"))
     catcheck.prepare(w, cases)
     agg = catcheck.explore(w, rep, cases[:-1], "C15", r"Harness_C15$", N, tmo, "rel", seed=seed,
@@ -937,7 +951,7 @@ def check_C20(tier, seed):
              "zz_verif_c03stub.go": stub03,
              "zz_verif_c20.go": open(os.path.join(VERIF, "harness", "c20_main.go")).read(),
              "zz_verif_c20data.go": "".join(src)}
-    names = ["Harness_C20rt", "Harness_C20layout", "Harness_C20escape", "Harness_C20class", "Harness_C20op"]
+    names = ["Harness_C20rt", "Harness_C20layout", "Harness_C20escape", "Harness_C20class", "Harness_C20op", "Harness_C20free"]
     ov = RepoOverlay(w, ".", "main", files, names)
     tmo = 120 if quick else 900
     agg = overlay_explore(rep, "C20", ov, "Harness_C20rt$", 0, len(rt) - 1, tmo, "c20_roundtrip", sample_every=1, max_triage=4, max_steps=20_000_000 if quick else 400_000_000)
@@ -947,6 +961,8 @@ def check_C20(tier, seed):
     agg = merge_agg(agg, overlay_explore(rep, "C20", ov, "Harness_C20escape$", 0, 0, tmo, "c20_escape", sample_every=23, max_triage=3, args=set(esc_args)))
     agg = merge_agg(agg, overlay_explore(rep, "C20", ov, "Harness_C20class$", 0, 3 if quick else 4, tmo, "c20_class", sample_every=23, max_triage=3))
     agg = merge_agg(agg, overlay_explore(rep, "C20", ov, "Harness_C20op$", 0, 0, tmo, "c20_op", sample_every=3, max_triage=3))
+    free_args = [8 * sk + k for sk in range(6) for k in range(1, (2 if quick else 3) + 1)] + [8 * sk + (3 if quick else 4) for sk in (1, 2)]
+    agg = merge_agg(agg, overlay_explore(rep, "C20", ov, "Harness_C20free$", 0, 0, max(tmo, 300), "c20_free", sample_every=97, max_triage=3, args=set(free_args)))
     agg.pop("_samples", None)
     std_cov(rep, agg, rt, {"catalogue_texts": len(rt), "layout_holes": "%d symbolic layout bytes at %d token boundaries" % (hole_len, len(lay_args)),
                            "escape_holes": "valid escape bodies of length %s" % ("1,3" if quick else "1,3,5,9"), "class_holes": "<= %d printable ASCII bytes" % (3 if quick else 4),
@@ -1311,13 +1327,13 @@ def lemma_case(name, flags, with_state):
     return catcheck.Case("lem_" + name, [(rel, peg, flags)], rel, {"lemmas.go": src}, names, peg=peg, meta={"flags": flags})
 
 
-def run_lemmas(w, rep, prop, which, N, tmo=300):
+def run_lemmas(w, rep, prop, which, N, tmo=300, key="lemma_obligations"):
     """Runs the lemma harnesses `which` (regex alternatives) on the four template instances."""
     cases = [lemma_case("std", [], True), lemma_case("optstate", ["-optimize-parser"], True), lemma_case("opt", ["-optimize-parser"], False)]
     catcheck.prepare(w, cases)
     hre = r"Harness_Lem(%s)$" % "|".join(which)
     agg = catcheck.explore(w, rep, cases, prop, hre, N, tmo, "lemma", seed=0, validate_pkgs=3, sample_every=200)
-    rep.cov["lemma_obligations"] = {"functions": ["parse%sExpr/Matcher" % x for x in which], "template_instances": ["standard", "-optimize-parser with state", "-optimize-parser without state"],
+    rep.cov[key] = {"functions": ["parse%sExpr/Matcher" % x for x in which], "template_instances": ["standard", "-optimize-parser with state", "-optimize-parser without state"],
                                     "input_bytes_max": N, "paths": agg["paths"], "assertions_checked": agg["asserts"], "assertions_discharged": agg["discharged"],
                                     "counterexamples": agg["cex"], "note": "children are real expression nodes whose behaviour is chosen nondeterministically among those contract K allows (fail, consume-then-fail, succeed consuming 0 or 1 rune, with or without a state change; plain, labelled action or rule reference); pre-state: any canonical position, symbolic input; runs natively as well"}
     return agg
